@@ -546,6 +546,8 @@ pub fn dump_tree(model: &crate::Workflow) -> std::result::Result<Value, String> 
         Some(root) => Ok(json!({
             "root": node_json(&root),
             "error": match &tree.error { Some(e) => json!(e.to_string()), None => json!("nil") },
+            // the model the tree keeps (what a process row stores and a reload rebuilds from)
+            "model": serde_json::to_value(&*tree.model).unwrap_or(Value::Null),
         })),
         None => Err("no root".to_string()),
     }
